@@ -289,12 +289,139 @@ def twin_pairs(rng):
     return out
 
 
+# sizes (bytes) of in-memory targets around the point where a literal argument is hoisted into the graph as a node
+# of its own (`normalize_arg`: sizeof(x) > 1e6; lists of >= 10 items)
+BIG_BELOW = (999_000, 999_999, 1_000_000)
+BIG_ABOVE = (1_000_001, 1_000_008, 1_048_576, 1_200_000, 2_000_000)
+BYTE_FILLS = (0, 255, 251, 252, 253, 254)
+
+
+def _big_shape(rng, nbytes, itemsize, rank, above):
+    n = -(-nbytes // itemsize) if above else nbytes // itemsize
+    if rank == 1:
+        return [n]
+    r = rng.choice([2, 4, 5, 8])
+    return [r, -(-n // r) if above else n // r]
+
+
+def _window(rng, tshape, stepped=False):
+    """(source shape, region) of a small window somewhere in a large target (start, middle, flush with the end)"""
+    shape, region = [], []
+    for n in tshape:
+        step = rng.choice([2, 3]) if stepped and rng.random() < 0.5 else 1
+        most = (n - 1) // step + 1
+        m = rng.randint(1, min(most, 6)) if len(tshape) > 1 else rng.randint(min(3, most), min(most, 40))
+        span = (m - 1) * step + 1
+        start = rng.choice([0, rng.randint(0, n - span), n - span, rng.randint(0, min(9, n - span))])
+        stop = start + span
+        region.append(slice(start if (start or rng.random() < 0.6) else None, None if (stop == n and rng.random() < 0.4) else stop,
+                            step if (step > 1 or rng.random() < 0.3) else None))
+        shape.append(m)
+    return shape, tuple(region)
+
+
+def big_target_pairs(rng, size="above", content="identical", region=None, npairs=None, dtype=None, rank=None, layout="pairs"):
+    """2-3 (source, target) pairs of ONE store call whose ndarray targets sit just below / just above 1 MB (or one of
+    each), with identical or different initial content; every pair has its own source.  `layout="shared"`: two sources
+    into disjoint windows of one large target plus a third into an identical-looking second target."""
+    dtype = dtype or rng.choice(["uint8", "uint8", "uint8", "int64"])
+    item = np.dtype(dtype).itemsize
+    rank = rank or rng.choice([1, 1, 2])
+    region = region or rng.choice(["none", "window", "window", "same-window", "stepped-window"])
+    npairs = npairs or rng.choice([2, 2, 2, 3])
+    fills = list(BYTE_FILLS) if dtype == "uint8" else [SENTINEL, -7, -3, -9]
+    fill0 = rng.choice(fills)
+
+    def tshape_of(j):
+        if size == "straddle":
+            above = (j % 2 == 1)
+        else:
+            above = size == "above"
+        nb = rng.choice(BIG_ABOVE if above else BIG_BELOW)
+        return _big_shape(rng, nb, item, rank, above)
+
+    t0 = tshape_of(0)
+    win0 = None
+    pairs = []
+    if layout == "shared":
+        t0 = _big_shape(rng, rng.choice(BIG_ABOVE if size != "below" else BIG_BELOW), item, 1, size != "below")
+        n = t0[0]
+        la, lb, lc = rng.randint(3, 30), rng.randint(3, 30), rng.randint(3, 30)
+        a0 = rng.randint(0, 50)
+        b0 = a0 + la + rng.randint(0, 20)
+        c0 = rng.choice([a0, b0, rng.randint(0, n - lc)])
+        for k, (st, ln, to) in enumerate(((a0, la, None), (b0, lb, 0), (c0, lc, None))):
+            q = {"shape": [ln], "chunks": [list(gen.rand_chunks(rng, ln, maxparts=3))], "tshape": list(t0),
+                 "region": enc_region((slice(st, st + ln),)), "derived": rng.choice(["none", "add", "rechunk"]), "target": "numpy",
+                 "dtype": dtype, "fill": fill0}
+            if to is not None:
+                q["tgt_of"] = to
+            pairs.append(q)
+        return pairs
+    for j in range(npairs):
+        if content == "identical" or (content == "two-alike" and j < 2):
+            tshape, fill = list(t0), fill0
+        elif content == "different-fill":
+            tshape, fill = list(t0), fills[(fills.index(fill0) + j) % len(fills)]
+        else:  # different-size
+            tshape, fill = (list(t0) if j == 0 else tshape_of(j)), fill0
+            if j and tshape == t0:
+                tshape[-1] += 1
+        if content == "two-alike" and j >= 2:
+            fill = fills[(fills.index(fill0) + 1) % len(fills)]
+        if size == "straddle" and j:
+            tshape = tshape_of(j)
+        if region == "none":
+            shape, reg = list(tshape), None
+            chunks = [list(gen.rand_chunks(rng, shape[0], maxparts=3))] + [[m] for m in shape[1:]]
+        else:
+            if region == "same-window" and win0 is not None and list(tshape) == list(t0):
+                shape, reg = win0
+            else:
+                shape, reg = _window(rng, tshape, stepped=region == "stepped-window")
+            if win0 is None:
+                win0 = (shape, reg)
+            chunks = [list(gen.rand_chunks(rng, m, maxparts=3)) for m in shape]
+        q = {"shape": list(shape), "chunks": chunks, "tshape": list(tshape), "region": enc_region(reg),
+             "derived": rng.choice(["none", "none", "add"] if region == "none" else ["none", "none", "add", "rechunk", "slice"]),
+             "target": "numpy", "dtype": dtype, "fill": fill}
+        pairs.append(q)
+    if npairs > 2 and content == "identical" and rng.random() < 0.3:
+        pairs[2] = dict(pairs[0], src_of=0)  # one array into two of the look-alike targets as well
+    return pairs
+
+
+def many_pairs(rng):
+    """10-12 (source, target) pairs in ONE store call (the sources / targets / regions are lists of >= 10 items);
+    small targets, mostly identical-looking"""
+    p = rand_pair(rng)
+    while not region_supported(dec_region(p["region"])) or 0 in p["shape"]:
+        p = rand_pair(rng)
+    p["target"] = rng.choice(["numpy", "numpy", "rec"])
+    n = rng.randint(10, 12)
+    pairs = [dict(p) for _ in range(n)]
+    for j in rng.sample(range(1, n), rng.randint(0, 3)):
+        q = rand_pair(rng)
+        if region_supported(dec_region(q["region"])):
+            q["target"] = p["target"]
+            pairs[j] = q
+    if rng.random() < 0.3:
+        j = rng.randint(1, n - 1)
+        if pairs[j] == p:
+            pairs[j] = dict(p, src_of=0)
+    return pairs
+
+
 def gen_case(ctx, force=None):
     rng = ctx.rng
     force = force or {}
-    form = force.get("form") or rng.choice(["plain"] * 8 + ["partition", "twins"])
+    form = force.get("form") or rng.choice(["plain"] * 16 + ["partition", "twins"] * 2 + ["big"])
     if form == "partition":
         pairs = partition_pairs(rng)
+    elif form == "big":
+        pairs = big_target_pairs(rng, **(force.get("big") or {}))
+    elif form == "many":
+        pairs = many_pairs(rng)
     elif form == "twins":
         pairs = twin_pairs(rng)
     else:
@@ -321,6 +448,7 @@ def gen_case(ctx, force=None):
         "sched_ctx": force.get("sched_ctx") or rng.choice(quick_ctx),
         "sched_kw": force["sched_kw"] if "sched_kw" in force else rng.choice([None, None, None, "threads", "sync"]),
         "consumer": force.get("consumer") or rng.choice(CONSUMERS),
+        "form": form,
     }
     if not scheduler_valid(case):
         # in-memory targets cannot be written through a serializing scheduler: make the program one the
@@ -358,9 +486,17 @@ def writes_nothing(key):
     return any(isinstance(i, slice) and i.start is not None and i.stop is not None and i.start >= i.stop and (i.step or 1) > 0 for i in key)
 
 
-def source_array(k, shape):
+def source_array(k, shape, dtype="int64"):
     n = int(np.prod(shape))
+    if np.dtype(dtype) == np.uint8:
+        # 1..250: never one of the fills used for byte targets (0, 251..255); pairs differ in phase
+        return ((np.arange(n, dtype=np.int64) * 7 + 31 * k) % 250 + 1).astype(np.uint8).reshape(shape)
     return (np.arange(n, dtype=np.int64) + 1000 * k).reshape(shape)
+
+
+def pair_fill(p):
+    """initial content of the pair's target (every position holds this value before the store)"""
+    return p.get("fill", SENTINEL)
 
 
 def small(a):
@@ -388,6 +524,7 @@ def _run_case(case, tmp):
 
     srcs, tgts, regions, datas, kinds, owner = [], [], [], [], [], []
     exps = {}
+    fills = {}
     valid = True
     for k, p in enumerate(case["pairs"]):
         shape = tuple(p["shape"])
@@ -396,7 +533,7 @@ def _run_case(case, tmp):
         if so is not None:
             d, data = srcs[so], datas[so]
         else:
-            data = source_array(k, shape)
+            data = source_array(k, shape, p.get("dtype", "int64"))
             if p["derived"] == "slice":
                 big = np.concatenate([data, data[:1]], axis=0) if data.shape[0] else data
                 d = da.from_array(big, chunks=big.shape)[: data.shape[0]].rechunk(chunks)
@@ -414,19 +551,23 @@ def _run_case(case, tmp):
         else:
             kind, own = pair_kind(p), k
             if kind == "numpy":
-                t = np.full(tshape, SENTINEL, dtype=np.int64)
-            elif kind == "file":
-                t = FileTarget(os.path.join(tmp, f"t{k}.npy"), tshape)
+                t = np.full(tshape, pair_fill(p), dtype=np.dtype(p.get("dtype", "int64")))
+                fills[own] = pair_fill(p)
+                exps[own] = np.full(tshape, pair_fill(p), dtype=t.dtype)
             else:
-                t = RecTarget(tshape)
-            exps[own] = np.full(tshape, SENTINEL, dtype=np.int64)
+                if kind == "file":
+                    t = FileTarget(os.path.join(tmp, f"t{k}.npy"), tshape)
+                else:
+                    t = RecTarget(tshape)
+                fills[own] = SENTINEL
+                exps[own] = np.full(tshape, SENTINEL, dtype=np.int64)
         exp = exps[own]
         try:
             if region is None:
                 exp[...] = data
                 valid = valid and exp.shape == data.shape
             else:
-                if to is not None and (exp[region] != SENTINEL).any():
+                if to is not None and (exp[region] != fills[own]).any():
                     valid = False  # regions of one target must be disjoint
                 exp[region] = data
                 valid = valid and exp[region].shape == data.shape
@@ -467,7 +608,7 @@ def _run_case(case, tmp):
             res = da.store(srcs[0] if single else srcs, tgts[0] if single else tgts, regions=regs, **kwargs)
             if not case["compute"] and not case["return_stored"]:
                 # lazily built: nothing may have been written yet
-                lazy_clean = all((raw(t) == SENTINEL).all() for t in tgts)
+                lazy_clean = all((raw(t) == fills[o]).all() for t, o in zip(tgts, owner))
                 dask.compute(res, **hk)
             else:
                 lazy_clean = True
@@ -517,13 +658,20 @@ def _run_case(case, tmp):
             for own, exp in exps.items():
                 got = raw(tgts[own])
                 bad_region = any(not region_supported(regions[k]) for k in range(len(tgts)) if owner[k] == own)
-                ok = (got == SENTINEL).all() if bad_region and sum(1 for o in owner if o == own) == 1 else ((got == SENTINEL) | (got == exp)).all()
+                ok = (got == fills[own]).all() if bad_region and sum(1 for o in owner if o == own) == 1 else ((got == fills[own]) | (got == exp)).all()
                 if not ok:
                     return "wrong-write-before-refusal", {"pair": own, "error": repr(e)[:200], "got": small(got)}, None
             return None, {"refused": True, "error": type(e).__name__}, None
     shared = len(set(owner)) < len(owner)
     logs = [(t.wlog, t.rlog) if isinstance(t, RecTarget) and not shared else None for t in tgts]
-    for own, exp in exps.items():
+    def untouched(o):
+        g = raw(tgts[o])
+        return bool((g == fills[o]).all()) and not np.array_equal(g, exps[o])
+
+    # a target that was not written at all is looked at first: which of the OTHER targets then holds wrong values
+    # may depend on the order the blocks happened to run in; the untouched one does not
+    for own in sorted(exps, key=lambda o: (not untouched(o), o)):
+        exp = exps[own]
         got = raw(tgts[own])
         if not np.array_equal(got, exp):
             writers = [k for k in range(len(tgts)) if owner[k] == own]
@@ -534,7 +682,8 @@ def _run_case(case, tmp):
                 if inside.shape != datas[k].shape or not np.array_equal(inside, datas[k]):
                     wrong_inside = True
             sig = "written-values" if wrong_inside else "outside-region-touched"
-            if wrong_inside and (got == SENTINEL).all():
+            det = {"pair": own, "got": small(got), "want": small(exp)}
+            if wrong_inside and (got == fills[own]).all():
                 sig = "target-untouched"
                 # narrow class: the same dask array stored into several targets that are indistinguishable by
                 # content (same kind, shape, region, sentinel fill) - only one of them is written
@@ -543,7 +692,27 @@ def _run_case(case, tmp):
                          and case["pairs"][j]["region"] == case["pairs"][own]["region"] and owner[j] == j]
                 if twins and any(np.array_equal(raw(tgts[j]), exps[j]) for j in twins):
                     sig = "same-source-identical-targets-written-once"
-            return sig, {"pair": own, "got": small(got), "want": small(exp)}, logs
+                else:
+                    # narrow class: DIFFERENT sources into several targets of one call that are indistinguishable by
+                    # initial content (same kind, shape, dtype, fill): the writes meant for this one went elsewhere / nowhere
+                    def looks(j):
+                        q = case["pairs"][j]
+                        return (kinds[j], q["tshape"], q.get("dtype", "int64"), pair_fill(q))
+
+                    alike = [j for j in exps if j != own and kinds[j] != "file" and looks(j) == looks(own)]
+                    if alike:
+                        sig = "identical-looking-targets:one-untouched"
+                        for k in writers:
+                            r = regions[k]
+                            for j in alike:
+                                try:
+                                    there = raw(tgts[j]) if r is None else raw(tgts[j])[r]
+                                except Exception:  # noqa: BLE001
+                                    continue
+                                if datas[k].size and there.shape == datas[k].shape and np.array_equal(there, datas[k]):
+                                    det["values_of_pair"] = k
+                                    det["found_in_target_of_pair"] = j
+            return sig, det, logs
     if not supported:
         return "unsupported-region-accepted-correctly", {}, logs  # not a failure: handled by caller
     if stored is not None:
@@ -1085,6 +1254,18 @@ def grid_forces(ctx):
             for compute in (True, False):
                 for _ in range(ctx.scale(3, 12)):
                     out.append({"form": form, "sched_ctx": sc, "compute": compute})
+    # ndarray targets of every size class around 1 MB (where literal arguments are hoisted into the graph) x identical /
+    # different initial content x every scheduler context x compute; >= 10 pairs in one call
+    for _ in range(ctx.scale(1, 4)):
+        for sc in ("default", "threads", "sync", "pickling"):
+            for compute in (True, False):
+                for size in ("below", "above", "straddle"):
+                    for content in ("identical", "different-fill"):
+                        out.append({"form": "big", "sched_ctx": sc, "compute": compute, "big": {"size": size, "content": content}})
+                out.append({"form": "big", "sched_ctx": sc, "compute": compute, "big": {"size": "above", "content": "two-alike", "npairs": 3}})
+                out.append({"form": "big", "sched_ctx": sc, "compute": compute, "big": {"size": "above", "content": "different-size"}})
+                out.append({"form": "big", "sched_ctx": sc, "compute": compute, "big": {"size": "above", "layout": "shared"}})
+                out.append({"form": "many", "sched_ctx": sc, "compute": compute})
     return out
 
 
@@ -1125,6 +1306,13 @@ def search(ctx):
         ctx.count(("sched", case["sched_ctx"], case["sched_kw"], kinds, case["compute"], case["return_stored"]), n=0)
         ctx.count(("form", any("tgt_of" in p for p in case["pairs"]), any(p.get("src_of") is not None for p in case["pairs"]),
                    case["sched_ctx"], case["consumer"] if case["return_stored"] and case["compute"] else None), n=0)
+        if case.get("form") in ("big", "many"):
+            nb = [int(np.prod(p["tshape"])) * np.dtype(p.get("dtype", "int64")).itemsize for p in case["pairs"]]
+            looks = [(p["tshape"], p.get("dtype"), p.get("fill")) for p in case["pairs"] if "tgt_of" not in p]
+            ctx.count(("large-targets", case["form"], case["sched_ctx"], case["compute"], case["return_stored"],
+                       tuple(sorted({"above" if b > 1e6 else "below" for b in nb})) if case["form"] == "big" else len(nb),
+                       "alike" if any(looks.count(l) > 1 for l in looks) else "distinct",
+                       any(p["region"] is not None for p in case["pairs"]), any("tgt_of" in p for p in case["pairs"])), n=0)
         if done % 89 == 0:
             ctx.sample({"program": case, "outcome": sig or "ok"})
         if sig is None and logs is not None and len(corr) < ctx.scale(4000, 40000):
@@ -1205,7 +1393,11 @@ def run(ctx, replay=None):
         "scheduler= None/threads/sync/serializing - as a full grid (context x target mix x scheduler= x compute x return_stored) "
         "plus random; programs the documentation excludes (in-memory non-ndarray target written through a serializing scheduler "
         "without any ndarray target) are not generated; several sources into pairwise disjoint regions (slabs, interleaved strides) "
-        "of ONE target; the SAME array into two or three targets (identical / other region / other kind); "
+        "of ONE target; the SAME array into two or three targets (identical / other region / other kind); ndarray targets (uint8 / "
+        "int64, rank 1-2) of every size class around 1 MB where literal arguments become graph nodes of their own (999000 B .. exactly "
+        "1e6 B / 1e6+1 B .. 2 MB / one of each), 2-3 pairs per call with identical or different initial content (fill, size), whole-"
+        "target writes or small (stepped) windows at the same or different offsets, two sources into one large target plus a look-alike "
+        "second target, and 10-12 pairs in one call - each as a grid over scheduler context x compute, other options seeded; "
         "to_npy_stack/from_npy_stack over every axis, chunkings with zero-length chunks, dtypes, mmap modes, as single round "
         "trips and as histories of 2-3 different arrays written into ONE directory (on-disk files, metadata and read-back "
         "checked after every write; earlier arrays released or still referenced; fresh-directory controls); stacks of 11-30 and "
